@@ -11,11 +11,16 @@ model.run(history) must return a dict:
 The search is level-synchronous; each level's (history, event) pairs are
 executed in parallel.  Every transition is one execution of the implementation.
 """
+import hashlib
 import json
 
 
 def _k(key):
-    return json.dumps(key, sort_keys=True, default=str)
+    # 20-byte digest of the canonical state (hash compaction: a collision -- probability ~ n^2 / 2^161 -- would prune a state)
+    return hashlib.blake2b(json.dumps(key, sort_keys=True, default=str).encode(), digest_size=20).digest()
+
+
+MAX_WITNESSES = 200
 
 
 def bfs(run, depth, ctx, max_states=None, progress=None, roots=None):
@@ -31,6 +36,7 @@ def bfs(run, depth, ctx, max_states=None, progress=None, roots=None):
             frontier.append((root, r0["enabled"]))
     states, transitions, maxd = len(frontier), 0, 0
     viols = []
+    viol_counts = {}
     labels = {}
     samples = []
     capped = None
@@ -39,12 +45,16 @@ def bfs(run, depth, ctx, max_states=None, progress=None, roots=None):
         tasks = [(h, e) for h, en in frontier for e in en]
         if not tasks:
             break
-        results = ctx.pmap(_Task(run), tasks)
+        results = ctx.pimap_ordered(_Task(run), tasks) if hasattr(ctx, "pimap_ordered") else ctx.pmap(_Task(run), tasks)
         nxt = []
         for (h, e), r in zip(tasks, results):
             transitions += 1
             labels[r["label"]] = labels.get(r["label"], 0) + 1
             for v in r["viols"]:
+                c = v.get("cause", "?")
+                viol_counts[c] = viol_counts.get(c, 0) + 1
+                if viol_counts[c] > MAX_WITNESSES:
+                    continue              # counted, not kept: the first MAX_WITNESSES witnesses of a cause are the shortest ones
                 v = dict(v)
                 v.setdefault("case", {})
                 v["case"]["history"] = h + [e]
@@ -68,7 +78,15 @@ def bfs(run, depth, ctx, max_states=None, progress=None, roots=None):
         if max_states and states >= max_states:
             capped = "max_states=%d reached at depth %d" % (max_states, d)
             break
-    return {"states": states, "transitions": transitions, "max_depth": maxd, "violations": viols,
+    first = {}
+    kept = {}
+    for v in viols:
+        c = v.get("cause", "?")
+        first.setdefault(c, v)
+        kept[c] = kept.get(c, 0) + 1
+    for c, v in first.items():
+        v["n"] = viol_counts[c] - (kept[c] - 1)      # this witness also stands for the ones that were counted but not kept
+    return {"states": states, "transitions": transitions, "max_depth": maxd, "violations": viols, "violation_counts": viol_counts,
             "labels": labels, "samples": samples, "capped": capped, "new_states_per_level": per_level,
             "frontier_left": len(frontier)}
 
